@@ -311,6 +311,14 @@ pub fn judge_ceremony(t: &CeremonyTrace, o: &CeremonyOutcome) -> Vec<Finding> {
     if let Some(p) = &o.panic {
         f.push(Finding { prop: "C14".into(), clause: "panic-in-block-verification".into(), detail: p.clone() });
     }
+    if o.unsignable.is_none() && !o.parsed && t.mode == Mode::C09 && t.ops.is_empty() && t.labels.iter().any(|l| l == "POSITIVE") {
+        // what the library wrote itself cannot be read back
+        f.push(Finding {
+            prop: "C09".into(),
+            clause: "own-output-unreadable".into(),
+            detail: format!("the block the library signed and wrote ({:?}) is rejected by its own parser: {}", t.wire, o.parse_err),
+        });
+    }
     if o.unsignable.is_some() || !o.parsed {
         return f;
     }
@@ -575,6 +583,13 @@ pub fn gen_body(r: &mut Rng, seed: u64, keys: &mut Vec<KeySpec>) -> BodySpec {
             }
         }
         l.readme = gen::text(r);
+        if r.chance(1, 3) {
+            // expiry dates where calendars like to disagree
+            l.expires = r.pick(&[
+                "2026-12-30T00:00:00Z", "2027-01-01T00:00:00Z", "2024-12-31T23:59:59Z", "2025-12-29T12:00:00Z", "2028-02-29T00:00:00Z",
+                "2100-02-28T23:59:59Z", "2038-01-19T03:14:08Z", "1999-12-31T23:59:59Z", "2021-01-03T00:00:00Z", "2032-12-27T00:00:00Z",
+            ]).to_string();
+        }
         BodySpec::Layout(l)
     }
 }
@@ -585,6 +600,23 @@ fn base_trace(seed: u64, tier: Tier, mode: Mode) -> (CeremonyTrace, Rng) {
     let ed_only = r.chance(if tier == Tier::Quick { 70 } else { 45 }, 100);
     let m = 1 + r.weighted(&[35, 30, 20, 10, 5]);
     let mut keys = keys::draw_keys(&mut kr, m + 2, ed_only, true);
+    // now and then two signers share their key material (one key under two ids / two schemes)
+    if m >= 2 && r.chance(1, 10) {
+        let alias = match keys[0].kind {
+            KeyKind::Ed => Some(KeySpec { kind: KeyKind::EdPk8, seed: keys[0].seed }),
+            KeyKind::EdPk8 => Some(KeySpec { kind: KeyKind::Ed, seed: keys[0].seed }),
+            KeyKind::Rsa2048S256 => Some(KeySpec { kind: KeyKind::Rsa2048S512, seed: 0 }),
+            KeyKind::Rsa2048S512 => Some(KeySpec { kind: KeyKind::Rsa2048S256, seed: 0 }),
+            KeyKind::Rsa4096S256 => Some(KeySpec { kind: KeyKind::Rsa4096S512, seed: 0 }),
+            KeyKind::Rsa4096S512 => Some(KeySpec { kind: KeyKind::Rsa4096S256, seed: 0 }),
+            _ => None,
+        };
+        if let Some(a) = alias {
+            if !keys.contains(&a) {
+                keys[1] = a;
+            }
+        }
+    }
     let signers: Vec<usize> = (0..m).collect();
     let body = gen_body(&mut r, seed, &mut keys);
     let mut hr = Rng::stream(seed, "hash");
@@ -891,6 +923,23 @@ pub fn run_c05(tier: Tier, seed: u64, index: u64, rec: &mut RunRecord) {
                 edits.push(DocOp::Set { ptr: ptr.clone(), value: json!("") });
                 for a in alternates(s) {
                     edits.push(DocOp::Set { ptr: ptr.clone(), value: json!(a) });
+                }
+                // a date: the same instant shifted by a year, a month, a day, an hour, a second
+                if let Some((secs, _)) = crate::refmodel::rfc3339_instant(s) {
+                    for d in [365 * 86_400i64, -365 * 86_400, 366 * 86_400, 31 * 86_400, 86_400, -86_400, 3600, 1, -1, 7 * 86_400] {
+                        let n = secs + d;
+                        if (0..253_402_300_799).contains(&n) {
+                            edits.push(DocOp::Set { ptr: ptr.clone(), value: json!(crate::refmodel::render_rfc3339(n, None, "")) });
+                        }
+                    }
+                    // same calendar day and time in the neighbouring years
+                    if s.len() >= 4 {
+                        if let Ok(y) = s[..4].parse::<i64>() {
+                            for dy in [-1i64, 1] {
+                                edits.push(DocOp::Set { ptr: ptr.clone(), value: json!(format!("{:04}{}", y + dy, &s[4..])) });
+                            }
+                        }
+                    }
                 }
                 // a MATCH rule: splice an empty source / destination prefix in
                 if s == "MATCH" && ptr.ends_with("/0") {
